@@ -786,3 +786,210 @@ crate::harnesses! {
     c01_ip_slice_64 = ip_slice::<64>; unwind 5,
     c01_lax_ip_slice_64 = lax_ip_slice::<64>; unwind 5,
 }
+
+// =============================================================== transport layer (c01t)
+
+pub mod transport {
+    use super::*;
+
+    pub fn touch_udp(outer: &[u8], u: &UdpSlice) {
+        within!(outer, u.slice());
+        within!(outer, u.header_slice());
+        within!(outer, u.payload());
+        sink(u.payload_len_source());
+        sink(u.source_port());
+        sink(u.destination_port());
+        sink(u.length());
+        sink(u.checksum());
+        sink(u.to_header());
+    }
+
+    pub fn udp_slice() {
+        let t = Tight::<16>::new(any_le(16));
+        let s = t.slice();
+        match UdpHeaderSlice::from_slice(s) {
+            Ok(h) => {
+                within!(s, h.slice());
+                sink(h.source_port());
+                sink(h.destination_port());
+                sink(h.length());
+                sink(h.checksum());
+                sink(h.to_header());
+            }
+            Err(_) => {}
+        }
+        match UdpHeader::from_slice(s) {
+            Ok((_h, rest)) => {
+                within!(s, rest);
+            }
+            Err(_) => {}
+        }
+        let lax: bool = any();
+        let r = if lax { UdpSlice::from_slice_lax(s) } else { UdpSlice::from_slice(s) };
+        match r {
+            Ok(u) => {
+                witness!(!lax && u.payload().len() > 0 && u.payload().len() + 8 < s.len(), "ok_cut_payload");
+                witness!(lax && u.payload_len_source() == LenSource::Slice, "lax_fallback");
+                touch_udp(s, &u);
+            }
+            Err(_) => {
+                witness!(true, "err");
+            }
+        }
+    }
+
+    pub fn touch_tcp_options(outer: &[u8], opts: &[u8], it: TcpOptionsIterator) {
+        within!(outer, opts);
+        let mut it = it;
+        let mut n = 0usize;
+        while let Some(r) = it.next() {
+            within!(outer, it.rest());
+            n += 1;
+            // C02: no more items than bytes
+            assert!(n <= opts.len());
+            core::mem::forget(r);
+        }
+        assert!(it.next().is_none());
+    }
+
+    pub fn tcp_header_slice<const N: usize, const ITER: bool>() {
+        let t = Tight::<N>::new(any_le(N));
+        let s = t.slice();
+        match TcpHeaderSlice::from_slice(s) {
+            Ok(h) => {
+                witness!(h.options().len() >= 4, "ok_options");
+                within!(s, h.slice());
+                sink(h.source_port());
+                sink(h.destination_port());
+                sink(h.sequence_number());
+                sink(h.acknowledgment_number());
+                sink(h.data_offset());
+                sink((h.ns(), h.fin(), h.syn(), h.rst(), h.psh(), h.ack(), h.urg(), h.ece(), h.cwr()));
+                sink(h.window_size());
+                sink(h.checksum());
+                sink(h.urgent_pointer());
+                within!(s, h.options());
+                if ITER {
+                    touch_tcp_options(s, h.options(), h.options_iterator());
+                    let hd = h.to_header();
+                    sink(hd.header_len());
+                }
+            }
+            Err(_) => {
+                witness!(true, "err");
+            }
+        }
+    }
+
+    pub fn tcp_slice<const N: usize, const ITER: bool>() {
+        let t = Tight::<N>::new(any_le(N));
+        let s = t.slice();
+        match TcpSlice::from_slice(s) {
+            Ok(h) => {
+                witness!(h.options().len() >= 4 && h.payload().len() > 0, "ok_options_payload");
+                within!(s, h.slice());
+                within!(s, h.header_slice());
+                within!(s, h.payload());
+                sink(h.source_port());
+                sink(h.destination_port());
+                sink(h.sequence_number());
+                sink(h.acknowledgment_number());
+                sink(h.data_offset());
+                sink((h.ns(), h.fin(), h.syn(), h.rst(), h.psh(), h.ack(), h.urg(), h.ece(), h.cwr()));
+                sink(h.window_size());
+                sink(h.checksum());
+                sink(h.urgent_pointer());
+                within!(s, h.options());
+                if ITER {
+                    touch_tcp_options(s, h.options(), h.options_iterator());
+                    let hd = h.to_header();
+                    sink(hd.header_len());
+                }
+            }
+            Err(_) => {
+                witness!(true, "err");
+            }
+        }
+        match TcpHeader::from_slice(s) {
+            Ok((_h, rest)) => {
+                within!(s, rest);
+            }
+            Err(_) => {}
+        }
+    }
+
+    pub fn icmpv4_slice() {
+        let t = Tight::<28>::new(any_le(28));
+        let s = t.slice();
+        match Icmpv4Slice::from_slice(s) {
+            Ok(i) => {
+                witness!(i.payload().len() > 0, "ok_payload");
+                within!(s, i.slice());
+                within!(s, i.payload());
+                sink(i.header_len());
+                sink(i.type_u8());
+                sink(i.code_u8());
+                sink(i.checksum());
+                sink(i.bytes5to8());
+                sink(i.icmp_type());
+                sink(i.header());
+                assert!(i.header_len() + i.payload().len() == i.slice().len());
+            }
+            Err(_) => {
+                witness!(true, "err");
+            }
+        }
+        match Icmpv4Header::from_slice(s) {
+            Ok((h, rest)) => {
+                within!(s, rest);
+                sink(h.header_len());
+            }
+            Err(_) => {}
+        }
+    }
+
+    pub fn icmpv6_slice() {
+        let t = Tight::<28>::new(any_le(28));
+        let s = t.slice();
+        match Icmpv6Slice::from_slice(s) {
+            Ok(i) => {
+                witness!(i.payload().len() > 0, "ok_payload");
+                within!(s, i.slice());
+                within!(s, i.payload());
+                sink(i.header_len());
+                sink(i.type_u8());
+                sink(i.code_u8());
+                sink(i.checksum());
+                sink(i.bytes5to8());
+                sink(i.icmp_type());
+                sink(i.header());
+                assert!(i.header_len() + i.payload().len() == i.slice().len());
+                match i.payload_slice() {
+                    Ok(p) => {
+                        within!(s, p.slice());
+                    }
+                    Err(_) => {}
+                }
+            }
+            Err(_) => {
+                witness!(true, "err");
+            }
+        }
+        match Icmpv6Header::from_slice(s) {
+            Ok((h, rest)) => {
+                within!(s, rest);
+                sink(h.header_len());
+            }
+            Err(_) => {}
+        }
+    }
+
+    crate::harnesses! {
+        c01_udp_slice = udp_slice; unwind 4,
+        c01_tcp_header_slice_64_noiter = tcp_header_slice::<64, false>; unwind 4,
+        // all data offsets / option area sizes, accessors only (the iterator itself: C13 harnesses)
+        c01_tcp_slice_64_noiter = tcp_slice::<64, false>; unwind 4,
+        c01_icmpv4_slice = icmpv4_slice; unwind 4,
+        c01_icmpv6_slice = icmpv6_slice; unwind 4,
+    }
+}
